@@ -37,7 +37,7 @@ type schemaPath struct {
 
 // schemaPaths lists every attribute path of the JSON schema with the JSON types the schema admits there.
 func schemaPaths() ([]schemaPath, error) {
-	b, err := os.ReadFile(core.RepoRoot+"/schema/compose-spec.json")
+	b, err := os.ReadFile(core.RepoRoot + "/schema/compose-spec.json")
 	if err != nil {
 		return nil, err
 	}
@@ -480,7 +480,7 @@ func C01(c *core.Ctx) {
 		c.Inconclusive("Loader model violates " + rl.Violated)
 		return
 	}
-	c.Set("mc_loader", map[string]interface{}{"distinct": rl.Distinct, "fault_sets_x_option_sets": 32768})
+	c.Set("mc_loader", map[string]interface{}{"distinct": rl.Distinct, "fault_sets_x_option_sets": 65536})
 	// ---- case space
 	sps, err := schemaPaths()
 	if err != nil || len(sps) < 200 {
@@ -572,9 +572,9 @@ func C01(c *core.Ctx) {
 			}
 			sort.Strings(sw)
 			cc := c01Case{ID: id, Family: "fault", Expect: asStr(cs["expect"]), Switches: sw, Files: map[string]string{}, Main: []string{"compose.yaml", "over.yaml"}}
-			cc.Files["compose.yaml"] = "include:\n  - inc.yaml\nservices:\n  a:\n    image: img\n    env_file:\n      - path: __DIR__/a.env\n      - {path: __DIR__/opt.env, required: false}\n    label_file: [__DIR__/a.label]\n  e:\n    image: img\n    extends: {file: ext.yaml, service: b}\n"
+			cc.Files["compose.yaml"] = "include:\n  - path: inc.yaml\n    env_file: __DIR__/inc.env\nservices:\n  a:\n    image: img\n    env_file:\n      - path: __DIR__/a.env\n      - {path: __DIR__/opt.env, required: false}\n    label_file: [__DIR__/a.label]\n  e:\n    image: img\n    extends: {file: ext.yaml, service: b}\n"
 			all := map[string][2]string{"override": {"over.yaml", "services:\n  a:\n    labels: {o: 1}\n"}, "extends": {"ext.yaml", "services:\n  b:\n    image: img\n"},
-				"include": {"inc.yaml", "services:\n  i:\n    image: img\n"}, "env_file": {"a.env", "K=1\n"}, "env_file_optional": {"opt.env", "O=1\n"}, "label_file": {"a.label", "l=1\n"}}
+				"include": {"inc.yaml", "services:\n  i:\n    image: img\n"}, "include_env_file": {"inc.env", "IV=1\n"}, "env_file": {"a.env", "K=1\n"}, "env_file_optional": {"opt.env", "O=1\n"}, "label_file": {"a.label", "l=1\n"}}
 			var ab []string
 			for ref, f := range all {
 				if absent[ref] {
@@ -617,6 +617,35 @@ func C01(c *core.Ctx) {
 		strings.Repeat("a: {", 200) + strings.Repeat("}", 200) + "\n",
 	} {
 		cases = append(cases, c01Case{ID: len(cases), Family: "alias", Desc: d, Expect: "either", Files: map[string]string{"compose.yaml": d}, Main: []string{"compose.yaml"}})
+	}
+	// reference cycles: each must be reported as an error (the statement says so; a project here is a finding)
+	for _, files := range []map[string]string{
+		{"compose.yaml": "x-a: &a\n  k: *a\nservices:\n  a: {image: img}\n"},
+		{"compose.yaml": "services:\n  a: &s\n    image: img\n    labels:\n      l: *s\n"},
+		{"compose.yaml": "services:\n  a:\n    image: img\n    extends: {service: a}\n"},
+		{"compose.yaml": "services:\n  a:\n    image: img\n    extends: {file: compose.yaml, service: a}\n"},
+		{"compose.yaml": "services:\n  a:\n    image: img\n    extends: {service: b}\n  b:\n    image: img\n    extends: {service: a}\n"},
+		{"compose.yaml": "services:\n  entry: {extends: {service: a}}\n  a: {image: img, extends: {service: b}}\n  b: {extends: {service: c}}\n  c: {extends: {service: a}}\n"},
+		{"compose.yaml": "services:\n  a:\n    extends: {file: other.yaml, service: x}\n", "other.yaml": "services:\n  x: {image: img, extends: {service: y}}\n  y: {extends: {service: x}}\n"},
+		{"compose.yaml": "services:\n  a:\n    extends: {file: other.yaml, service: x}\n", "other.yaml": "services:\n  x:\n    image: img\n    extends: {file: compose.yaml, service: a}\n"},
+		{"compose.yaml": "include:\n  - compose.yaml\nservices:\n  a: {image: img}\n"},
+		{"compose.yaml": "include:\n  - b.yaml\nservices:\n  a: {image: img}\n", "b.yaml": "include:\n  - compose.yaml\nservices:\n  b: {image: img}\n"},
+		{"compose.yaml": "include:\n  - b.yaml\nservices:\n  a: {image: img}\n", "b.yaml": "include:\n  - c.yaml\nservices:\n  b: {image: img}\n", "c.yaml": "include:\n  - b.yaml\nservices:\n  c: {image: img}\n"},
+		{"compose.yaml": "services:\n  a: {image: img, depends_on: [a]}\n"},
+		{"compose.yaml": "services:\n  a: {image: img, depends_on: [b]}\n  b: {image: img, depends_on: [a]}\n"},
+		{"compose.yaml": "services:\n  a: {image: img, depends_on: [b]}\n  b: {image: img, links: [c]}\n  c: {image: img, volumes_from: [a]}\n"},
+		{"compose.yaml": "services:\n  a: {image: img, depends_on: {b: {condition: service_started, required: false}}}\n  b: {image: img, network_mode: \"service:a\"}\n"},
+	} {
+		var names []string
+		for k := range files {
+			names = append(names, k)
+		}
+		sort.Strings(names)
+		d := "reference cycle: "
+		for _, k := range names {
+			d += k + "=" + files[k] + " "
+		}
+		cases = append(cases, c01Case{ID: len(cases), Family: "cycle", Desc: d, Expect: "error", Files: files, Main: []string{"compose.yaml"}})
 	}
 	// shapes that need more than one file
 	multi := []map[string]string{
@@ -682,7 +711,7 @@ func C01(c *core.Ctx) {
 		})
 	}
 	// every node of the repository's full example replaced by values of other kinds (siblings stay valid)
-	if fb, err := os.ReadFile(core.RepoRoot+"/loader/full-example.yml"); err == nil {
+	if fb, err := os.ReadFile(core.RepoRoot + "/loader/full-example.yml"); err == nil {
 		var tree interface{}
 		if yaml.Unmarshal(fb, &tree) == nil {
 			type step struct {
@@ -761,7 +790,7 @@ func C01(c *core.Ctx) {
 			}
 		}
 	}
-	if b, err := os.ReadFile(core.RepoRoot+"/loader/full-example.yml"); err == nil {
+	if b, err := os.ReadFile(core.RepoRoot + "/loader/full-example.yml"); err == nil {
 		corpus = append(corpus, string(b))
 	}
 	alphabet := []byte("{}[]:,-&*!|>'\"#%@`? \n\t$~0aA\\.")
@@ -819,7 +848,7 @@ func C01(c *core.Ctx) {
 			c.Report(core.Finding{Sig: r.Outcome, Detail: fmt.Sprintf("load returned %s a project and an error — %s: %s", r.Outcome, cs.Family, cs.Desc), Replay: rep})
 		case "project":
 			if cs.Expect == "error" && cs.Family == "cycle" {
-				c.Report(core.Finding{Sig: "cycle-accepted", Detail: "a cyclic depends_on graph loads — " + cs.Desc, Replay: rep})
+				c.Report(core.Finding{Sig: "cycle-accepted", Detail: "a reference cycle loads instead of being reported as an error — " + cs.Desc, Replay: rep})
 			} else if cs.Expect == "error" && cs.Family == "fault" {
 				c.Report(core.Finding{Sig: "accepted:fault:" + cs.Desc, Detail: "a referenced file is missing (and its phase is enabled) but the load succeeds — " + cs.Desc, Replay: rep})
 			} else if cs.Expect == "error" {
